@@ -665,12 +665,16 @@ func C14(tier string) *engine.Report {
 	d := c14DFS(tier)
 	tot.Add(d.Run(), rep)
 	tot.Add(c14NestedDFS(tier).Run(), rep)
+	tot.Add(c14BlockedDFS(tier).Run(), rep)
 	tot.Fill(rep, "all 5202 cycles of length 1..3 over 17 operation kinds (11 that succeed, 6 that complete at once with an error: accept on a listener shut down for reading, end of stream on a connection and a FIFO, write on a reset connection, oversized datagram on a packet conn and a multicast peer) x chain lengths {31,32,33,34,70}, every object pre-loaded so each step can complete immediately, each callback issuing the next step; "+
-		"nesting counter, IO.Dispatched after unwinding, per-step result and exactly-once are checked; every case is non-trivial (the chain crosses the dispatch limit, except length 31 which stays just below it); plus 135 nested cases: 1/2/31 inline completions of each of 9 kinds, then a read/accept of each of 5 kinds issued from that depth with nothing ready, completed later by the poller, then 33 more inline operations", 0)
+		"nesting counter, IO.Dispatched after unwinding, per-step result and exactly-once are checked; every case is non-trivial (the chain crosses the dispatch limit, except length 31 which stays just below it); plus 135 nested cases: 1/2/31 inline completions of each of 9 kinds, then a read/accept of each of 5 kinds issued from that depth with nothing ready, completed later by the poller, then 33 more inline operations; plus 32 blocked-write cases: AsyncWrite / AsyncWriteAll on a connection with a full send buffer or a full FIFO issued 0/1/2/31 levels deep, once or twice in a row, completed by the poller after the peer drained, then a chain of 40 inline writes that must still reach exactly the limit", 0)
 	return rep
 }
 
 func C14Replay(v engine.Violation, log func(string)) *engine.Violation {
+	if strings.HasPrefix(v.Config, "blocked@") {
+		return c14BlockedDFS(v.Config[8:]).ReplayChoices(v.Choices)
+	}
 	if strings.HasPrefix(v.Config, "nested@") {
 		return c14NestedDFS(v.Config[7:]).ReplayChoices(v.Choices)
 	}
